@@ -571,7 +571,7 @@ def findall_cases(draw, nested=False, max_prob_statements=4):
             if kind == "fact":
                 prog.append(["cl", [name, [gterm() for _ in range(arity)]], None])
                 continue
-            nlit = draw(st.integers(1, 2))
+            nlit = draw(st.sampled_from([1, 1, 2]))
             body = []
             bound = []
             for li in range(nlit):
@@ -645,7 +645,7 @@ def findall_cases(draw, nested=False, max_prob_statements=4):
 
         args, new = qargs(p, [])
         goals = [["call", p[0], args]]
-        shape = draw(st.integers(0, 7))
+        shape = draw(st.sampled_from([0, 1, 2, 3, 4, 5, 6, 6, 7, 7, 7, 7]))
         if shape <= 1:
             p2 = draw(st.sampled_from(preds))
             a2, n2 = qargs(p2, new)
